@@ -371,7 +371,7 @@ PROPS = {
         "thorough_seeds": 2,
         "case_timeout": 60,
         "rule": "valid objects of the framework's own encoders (envelopes of all four packers in both serializations, compact "
-                "JWS/JWT of seven algorithms, LD-signed credentials of five suites and presentations, DID documents, did:key "
+                "JWS/JWT of seven algorithms, LD-signed credentials of five suites and presentations, credential manifests (validation and resolution against a credential), DID documents, did:key "
                 "strings, BBS+ proofs / signatures / keys, SD-JWT combined formats, presentation definitions, inbound messages of "
                 "present-proof / issue-credential (v2, v3), message pickup and mediator) confused at one position: a member "
                 "replaced by null / 0 / -1 / 2^32-1 / 1.5 / \"\" / string / bool / [] / [null] / {} / removed, a string cut, doubled, "
@@ -468,7 +468,7 @@ PROPS = {
         "case_timeout": 120,
         "rule": "seeded multi-profile histories (2-3 profiles; create / open / open with short expiry / wrong passphrase / close / "
                 "expire / add / get / getall / remove / keypair), every content or key operation with a token drawn from ALL tokens "
-                "issued so far (own, foreign, closed, expired), garbage or not-yet-issued; Verify / Derive probes with caller-supplied credentials (derivable BBS+ credential as bytes and as instance, positive control under a live token); cross-profile key probe (owner imports and uses a key, every other live profile tries it through its own session); " "non-trivial = at least two wallets were "
+                "issued so far (own, foreign, closed, expired), garbage or not-yet-issued; Verify / Derive probes with caller-supplied credentials (derivable BBS+ credential as bytes and as instance, positive control under a live token); credential manifest resolved against a caller-supplied credential (refused without, working with a live token); cross-profile key probe (owner imports and uses a key, every other live profile tries it through its own session); " "non-trivial = at least two wallets were "
                 "opened, a read returned data and an operation was refused; distinct (input, outcome) pairs",
         "trusted_base": ["gcache expiry (real clock: 400 ms expiry, 1000 ms sleep)", "localkms / hkdf secret lock (passphrase check)",
                          "harness-owned in-memory provider whose stores survive Close"],
